@@ -543,3 +543,43 @@ theorem C14_setup_line_composed (v1 y1 v2 y2 l : Bytes) (hd : ∃ c ∈ v1, isDi
 example : stepLine b!"4.8.0" b!"2031" b!"    setvar:tx.crs_setup_version=400\"" = b!"    setvar:tx.crs_setup_version=480\"" := by decide +kernel
 
 end Crs.Props
+
+namespace Crs.Props
+open Crs Crs.Copyright
+
+/-- the lines of a file in the usual CRS layout: at most one kind of marker per line -/
+def OneMarkerLine (l : Bytes) : Prop :=
+  (∃ P r, IsHeaderPrefix P ∧ r ≠ [] ∧ l = P ++ r) ∨
+  (∃ x q, x ≠ [] ∧ (∀ c ∈ x, (c != '"') = true) ∧ (q = [] ∨ q.head? = some '"') ∧ '=' ∉ x ++ q ∧ '\'' ∉ x ++ q ∧ l = p5 ++ (x ++ q)) ∨
+  (∃ r, '=' ∉ r ∧ '\'' ∉ r ∧ l = p3 ++ r) ∨
+  (l.head? ≠ some '#' ∧ l.head? ≠ some 'S' ∧ '=' ∉ l) ∨
+  (l.head? ≠ some '#' ∧ l.head? ≠ some 'S' ∧ '\'' ∉ l)
+
+/-- **C14 (whole files, all five patterns composed).** For a file in which every line carries at most one kind of marker
+    (`OneMarkerLine`: header, signature, copyright line, or an action line without `=` or without `'` — this includes
+    every line without any marker that begins neither with `#` nor with `S`; a line beginning with `S` that is no
+    signature line, e.g. `SecRule …`, is outside this definition: there the signature pattern's prefix test on the rewritten
+    line is not settled), versions the command accepts (the first with a digit) and four-digit years: running
+    update-copyright a second time after a first gives byte for byte what the second run alone gives. (Scannability of
+    the lines the first run writes — no line ends in CR, D22 — stays a hypothesis, as in `updateRules_last_wins_of_line`.) -/
+theorem C14_file_composed (v1 y1 v2 y2 b : Bytes) (hv1 : VersionOk v1) (hv2 : VersionOk v2)
+    (hd : ∃ c ∈ v1, isDigit c = true) (hy1 : isYear4 y1 = true) (hy2 : isYear4 y2 = true)
+    (hkind : ∀ l ∈ scanLines b, OneMarkerLine l)
+    (hgood : ∀ l ∈ scanLines b, GoodLine' (stepLine v1 y1 l)) :
+    updateRules v2 y2 (updateRules v1 y1 b) = updateRules v2 y2 b := by
+  apply updateRules_last_wins_of_line v1 y1 v2 y2 b _ hgood
+  intro l hl
+  rcases hkind l hl with ⟨P, r, hP, hr, rfl⟩ | ⟨x, q, hx0, hx, hq, he, hs, rfl⟩ | ⟨r, he, hs, rfl⟩ | ⟨h0, h1, he⟩ | ⟨h0, h1, hs⟩
+  · exact C14_header_line_composed P v1 y1 v2 y2 r hP hv1 hv2 hr
+  · exact C14_signature_line_composed v1 y1 v2 y2 x q hv1 hv2 hx0 hx hq he hs
+  · exact C14_year_line_composed v1 y1 v2 y2 r hy1 hy2 he hs
+  · exact C14_ver_line_composed v1 y1 v2 y2 l hv1 h0 h1 he
+  · exact C14_setup_line_composed v1 y1 v2 y2 l hd h0 h1 hs
+
+/-- non-vacuity: the lines of a rules file in the usual layout are of these kinds -/
+example : OneMarkerLine b!"    ver:'OWASP_CRS/4.0.0',\\" ∧ OneMarkerLine b!"    setvar:tx.crs_setup_version=400\"" ∧
+    OneMarkerLine b!"    \"id:942100,\\" ∧ OneMarkerLine b!"# OWASP CRS ver.4.0.0" := by
+  refine ⟨.inr (.inr (.inr (.inl ⟨by decide, by decide, by decide⟩))), .inr (.inr (.inr (.inr ⟨by decide, by decide, by decide⟩))),
+    .inr (.inr (.inr (.inr ⟨by decide, by decide, by decide⟩))), .inl ⟨p1b, b!"4.0.0", .inr rfl, by decide, by decide⟩⟩
+
+end Crs.Props
